@@ -177,9 +177,14 @@ class C15(Check):
                                   readouts=(0.5, 0.4) if rng.random() < 0.4 else None, bare=0.3)
             for e in _all_edges(spec):
                 e[2] = {k: v for k, v in e[2].items() if v is not None}
-            if rng.random() < 0.4:
+            if spec.get('circuits') and rng.random() < 0.3:
+                # ONE sub-circuit template used twice, with coupling operators (string attributes that are re-scoped per level)
+                # on the edges inside it
+                models.make_twin_subcircuits(rng, spec)
+                models.add_edge_templates(rng, spec, p=0.9)
+            elif rng.random() < 0.4:
                 models.add_edge_templates(rng, spec, p=0.6)
-            if spec.get('circuits') and stratum != 'S-dual' and rng.random() < 0.4:
+            if spec.get('circuits') and stratum != 'S-dual' and not spec.get('twin_sub') and rng.random() < 0.4:
                 # two sub-circuit templates that share their NAME but not their content (e.g. columns made by one factory)
                 for sub in spec['circuits'].values():
                     sub['name'] = 'col'
